@@ -10,6 +10,8 @@ from vlib.core import Outcome, line
 
 BATCH_WIDTH = 2
 VALS = [1, 2, 4, -1, -2, -4, 0.5, -0.5]
+# legal client ids (ClientId = Any hashable): falsy values, None, tuples, strings
+ODD_IDS = [None, 0, b'', ('silo', 3), 'x', -1, (None, 3), 1.5]
 
 
 def frac_list(a):
@@ -79,23 +81,36 @@ class C02(core.Property):
     return {'kind': rng.randrange(3), 'shared': rng.choice([1, 2, -1, 3]), 'clients': clients,
             'D': rng.randrange(1, min(8, self.ndev) + 1), 'backend': backend,
             'with_step_result': rng.random() < 0.8, 'committed': rng.random() < 0.5,
-            'shared2': rng.choice([None, -3, 5, 4])}
+            'shared2': rng.choice([None, -3, 5, 4]), 'idkind': rng.choice(['int', 'odd', 'odd'])}
 
   def _gen_sched(self, rng):
+    """ops: 0 get, 1 set, 2 enter a `with` block, 3 leave it, 4 call a function decorated with
+    for_each_client_backend(arg) (the decorated function object is SHARED by all threads and may be
+    re-entered recursively), 5 return from it. 2/3 and 4/5 are properly nested per thread."""
     nt = rng.randrange(1, 4)
-    depth = [0] * nt
+    kinds = [[] for _ in range(nt)]      # per thread: stack of open brackets, 'w' or 'd'
     ops = []
+    deco_arg = rng.choice([1, 2, 3, 10])  # few distinct args so the same decorated object is re-entered
     for _ in range(rng.randrange(3, 14)):
       t = rng.randrange(nt)
-      code = rng.choice([0, 1, 2, 2, 3, 3])
-      if code == 3 and depth[t] == 0:
-        code = 0
-      arg = rng.choice([-1, -2, 1, 2, 3, 10, 11]) if code in (1, 2) else -1
-      if code == 2 and arg != -2:
-        depth[t] += 1
+      code = rng.choice([0, 1, 2, 2, 3, 3, 4, 4, 3])
       if code == 3:
-        depth[t] -= 1
-      ops.append([t, code, arg, rng.random() < 0.4])   # last: exit by exception
+        if not kinds[t]:
+          code = 0
+        elif kinds[t][-1] == 'd':
+          code = 5
+      arg = -1
+      if code in (1, 2):
+        arg = rng.choice([-1, -2, 1, 2, 3, 10, 11])
+      if code == 4:
+        arg = rng.choice([deco_arg, deco_arg, deco_arg, -2, -1, 2])
+      if code == 2 and arg != -2:
+        kinds[t].append('w')
+      if code == 4 and arg != -2:
+        kinds[t].append('d')
+      if code in (3, 5):
+        kinds[t].pop()
+      ops.append([t, code, arg, rng.random() < 0.4])   # last: leave by exception
     return {'sched': ops, 'threads': nt}
 
   def shrink(self, case):
@@ -106,11 +121,13 @@ class C02(core.Property):
         # keep bracket structure valid per thread
         ok, depth = True, {}
         for t, code, arg, _ in cand:
-          if code == 2 and arg != -2:
-            depth[t] = depth.get(t, 0) + 1
-          if code == 3:
-            depth[t] = depth.get(t, 0) - 1
-            ok = ok and depth[t] >= 0
+          st = depth.setdefault(t, [])
+          if code in (2, 4) and arg != -2:
+            st.append('w' if code == 2 else 'd')
+          if code in (3, 5):
+            ok = ok and bool(st) and st[-1] == ('w' if code == 3 else 'd')
+            if st:
+              st.pop()
         if ok:
           yield {**case, 'sched': cand}
       return
@@ -129,6 +146,14 @@ class C02(core.Property):
       return self._eval_sched(case, ctx)
     return self._eval_prog(case, ctx)
 
+  @staticmethod
+  def _rid(case, mid):
+    """real client id used for the model's client `mid` (100 + index)"""
+    k = mid - 100
+    if case.get('idkind') == 'odd' and 0 <= k < len(ODD_IDS):
+      return ODD_IDS[k]
+    return mid
+
   def _eval_prog(self, case, ctx):
     jax, jnp, fec = self.jax, self.jnp, self.fec
     kind, D, backend_name = case['kind'], case['D'], case['backend']
@@ -137,7 +162,9 @@ class C02(core.Property):
     if case.get('committed'):
       # e.g. the output of an earlier round: committed to one device
       shared = {'s': jax.device_put(shared['s'], jax.local_devices()[0])}
-    mk = lambda: [(cid, [{'x': jnp.asarray(b, dtype=jnp.float32)} for b in batches],
+    rid = {mid: self._rid(case, mid) for mid, _, _ in case['clients']}
+    back = {repr(v): k for k, v in rid.items()}
+    mk = lambda: [(rid[cid], [{'x': jnp.asarray(b, dtype=jnp.float32)} for b in batches],
                    {'i': jnp.float32(inp)}) for cid, inp, batches in case['clients']]
     clients = mk()
     snap_shared = np.asarray(shared['s']).copy()
@@ -167,7 +194,7 @@ class C02(core.Property):
         shared['s'] = jnp.float32(sval)
         snap_shared = np.asarray(shared['s']).copy()
       try:
-        res = [(cid, out, srs) for cid, out, srs in f(shared, clients)]
+        res = [(back.get(repr(cid), repr(cid)), out, srs) for cid, out, srs in f(shared, clients)]
       except Exception as e:  # the property says every backend yields the results
         key = 'C02/pmap/unusable-api' if backend_name == 'pmap' and isinstance(e, AttributeError) else None
         return Outcome(oracle_fail=f'backend {backend_name} (D={D}) call {call_no} raised {type(e).__name__}: {str(e)[:200]}',
@@ -191,6 +218,7 @@ class C02(core.Property):
       sh_ref = {'s': jnp.float32(sval)}
       with jax.disable_jit():
         for cid, bs, ci in mk():
+          cid = back[repr(cid)]
           st = self.init(sh_ref, ci)
           rs = []
           for bb in bs:
@@ -198,7 +226,7 @@ class C02(core.Property):
             rs.append(r)
           expect[cid] = (self.final(sh_ref, st), rs)
       got_ids = [cid for cid, _, _ in res]
-      if sorted(got_ids) != sorted(expect):
+      if sorted(map(str, got_ids)) != sorted(map(str, expect)):
         problems.append(f'call {call_no}: result ids {got_ids} != input ids {sorted(expect)}')
       impl = {}
       for cid, out, srs in res:
@@ -226,7 +254,7 @@ class C02(core.Property):
       else:
         ans = ctx.drv.ask1('c02.seq', kind, sval, mclients)
       model = {m[0]: (m[1], m[2]) for m in ans}
-      if sorted(model) != sorted(impl):
+      if sorted(map(str, model)) != sorted(map(str, impl)):
         corr.append(f'call {call_no}: model ids {sorted(model)} vs impl ids {sorted(impl)}')
       for cid in impl:
         if cid in model:
@@ -242,7 +270,7 @@ class C02(core.Property):
     tags = (f'backend={backend_name}', f'kind={kind}', f'nclients={min(len(mclients), 6)}',
             f'mult_of_D={len(mclients) % D == 0}', f'batchcounts={"uniform" if len(nbs) <= 1 else "mixed"}',
             f'zero_batch_client={any(len(c[2]) == 0 for c in case["clients"])}', f'wsr={wsr}', f'committed_shared={bool(case.get("committed"))}',
-            f'second_call={case.get("shared2") is not None}')
+            f'second_call={case.get("shared2") is not None}', f'ids={case.get("idkind", "int")}')
     return Outcome(oracle_fail='; '.join(problems[:4]) or None, corr_fail='; '.join(corr[:3]) or None,
                    nontrivial=len(nbs) > 1, tags=tags,
                    detail={'impl': {k: [list(map(str, v[0])), None if v[1] is None else list(map(str, v[1]))]
@@ -272,49 +300,103 @@ class C02(core.Property):
     fec = self.fec
     self.objs = {10: fec.ForEachClientDebugBackend(), 11: fec.ForEachClientJitBackend()}
     nt = case['threads']
+    # every bracket the schedule leaves open is closed at the end, in its own thread (an abandoned
+    # generator context manager would otherwise be finalised by the garbage collector in whatever
+    # thread happens to run it, i.e. its `finally` would restore a backend in the wrong thread)
+    sched = [list(o) for o in case['sched']]
+    open_kinds = [[] for _ in range(nt)]
+    for t, code, arg, _ in sched:
+      if code in (2, 4) and arg != -2:
+        open_kinds[t].append('w' if code == 2 else 'd')
+      if code in (3, 5) and open_kinds[t]:
+        open_kinds[t].pop()
+    for t in range(nt):
+      for k in reversed(open_kinds[t]):
+        sched.append([t, 3 if k == 'w' else 5, -1, False])
     qs = [queue.Queue() for _ in range(nt)]
     rs = [queue.Queue() for _ in range(nt)]
 
+    class _Stop(BaseException):
+      pass
+
+    # ONE decorated function per argument value, shared by all threads (a contextmanager-based
+    # context manager is also a decorator; every call must get its own saved state)
+    def _run_nested(loop):
+      return loop()
+    wrapped = {}
+    for a in (-2, -1, 1, 2, 3, 10, 11):
+      try:
+        wrapped[a] = fec.for_each_client_backend(self._arg(a))(_run_nested)
+      except Exception as e:   # constructing the decorator must not fail
+        wrapped[a] = e
+
     def worker(t):
       stack = []
-      while True:
-        cmd = qs[t].get()
-        if cmd is None:
-          return
-        code, arg, by_exc = cmd
-        got, verr = None, False
-        try:
-          if code == 0:
-            got = self._label(fec.get_for_each_client_backend())
-          elif code == 1:
-            fec.set_for_each_client_backend(self._arg(arg))
-          elif code == 2:
-            cm = fec.for_each_client_backend(self._arg(arg))
-            cm.__enter__()
-            stack.append(cm)
-          elif code == 3:
-            cm = stack.pop()
-            if by_exc:
-              e = KeyError('boom')
+
+      def respond(got, verr, ddepth):
+        rs[t].put((got, verr, self._label(fec._BACKEND_CHOICE.backend), len(stack) + ddepth))
+
+      def loop(ddepth, announce):
+        if announce:
+          respond(None, False, ddepth)            # the decorated call has been entered
+        while True:
+          cmd = qs[t].get()
+          if cmd is None:
+            raise _Stop()
+          code, arg, by_exc = cmd
+          got, verr = None, False
+          try:
+            if code == 0:
+              got = self._label(fec.get_for_each_client_backend())
+            elif code == 1:
+              fec.set_for_each_client_backend(self._arg(arg))
+            elif code == 2:
+              cm = fec.for_each_client_backend(self._arg(arg))
+              cm.__enter__()
+              stack.append(cm)
+            elif code == 3:
+              cm = stack.pop()
+              if by_exc:
+                e = KeyError('boom')
+                try:
+                  if cm.__exit__(KeyError, e, None):
+                    got = 'swallowed'
+                except KeyError:
+                  pass
+              else:
+                cm.__exit__(None, None, None)
+            elif code == 4:
+              w = wrapped[arg]
+              if isinstance(w, Exception):
+                raise w
               try:
-                if cm.__exit__(KeyError, e, None):
-                  got = 'swallowed'
+                w(lambda: loop(ddepth + 1, True))
               except KeyError:
-                pass
-            else:
-              cm.__exit__(None, None, None)
-          elif code == 9:
-            pass
-        except ValueError:
-          verr = True
-        rs[t].put((got, verr, self._label(fec._BACKEND_CHOICE.backend), len(stack)))
+                pass                               # the decorated function was left by an exception
+              # the inner loop has answered the call op; this answer belongs to the return op
+              respond(None, False, ddepth)
+              continue
+            elif code == 5:
+              if by_exc:
+                raise KeyError('boom')
+              return
+            elif code == 9:
+              pass
+          except ValueError:
+            verr = True
+          respond(got, verr, ddepth)
+
+      try:
+        loop(0, False)
+      except _Stop:
+        pass
 
     threads = [threading.Thread(target=worker, args=(t,), daemon=True) for t in range(nt)]
     for th in threads:
       th.start()
     obs = []
     try:
-      for t, code, arg, by_exc in case['sched']:
+      for t, code, arg, by_exc in sched:
         qs[t].put((code, arg, by_exc))
         got, verr, _, _ = rs[t].get(timeout=30)
         curs, depths = [], []
@@ -329,21 +411,21 @@ class C02(core.Property):
         q.put(None)
       for th in threads:
         th.join(timeout=10)
-    ans = ctx.drv.ask1('c02.tl', 1, nt, [[t, code, arg] for t, code, arg, _ in case['sched']])
+    ans = ctx.drv.ask1('c02.tl', 1, nt, [[t, {4: 2, 5: 3}.get(code, code), arg] for t, code, arg, _ in sched])
     corr, problems = [], []
     if ans != obs:
       for i, (a, o) in enumerate(zip(ans, obs)):
         if a != o:
-          corr.append(f'op {i} {case["sched"][i]}: model {a} vs impl {o}')
+          corr.append(f'op {i} {sched[i]}: model {a} vs impl {o}')
           break
     # independent oracle: per-thread bracket discipline (restore on exit, other threads untouched)
     saved = [[] for _ in range(nt)]
     prev = [None] * nt
-    for (t, code, arg, by_exc), (got, verr, curs, depths) in zip(case['sched'], obs):
+    for (t, code, arg, by_exc), (got, verr, curs, depths) in zip(sched, obs):
       for u in range(nt):
         if u != t and curs[u] != prev[u]:
           problems.append(f'op of thread {t} changed the choice seen by thread {u}')
-      if code == 2:
+      if code in (2, 4):
         if arg == -2:
           if not verr:
             problems.append('unsupported backend name accepted')
@@ -351,18 +433,20 @@ class C02(core.Property):
             problems.append('failed enter changed the choice')
         else:
           saved[t].append(prev[t])
-      if code == 3:
+      if code in (3, 5):
         want = saved[t].pop()
         if curs[t] != want:
-          problems.append(f'exit{" by exception" if by_exc else ""} restored {curs[t]} instead of {want}')
+          what = 'leaving a with block' if code == 3 else 'returning from a function decorated with the context manager'
+          problems.append(f'{what}{" by exception" if by_exc else ""} restored {curs[t]} instead of {want}')
         if got == 'swallowed':
           problems.append('context manager swallowed the exception')
       prev = list(curs)
     ctx.count('schedule_ops', len(obs))
-    n_enter = sum(1 for o in case['sched'] if o[1] == 2)
+    n_enter = sum(1 for o in sched if o[1] in (2, 4))
+    n_deco = sum(1 for o in sched if o[1] == 4)
     return Outcome(oracle_fail='; '.join(problems[:3]) or None, corr_fail='; '.join(corr[:2]) or None,
                    nontrivial=len(obs) >= 4 and n_enter > 0,
-                   tags=('schedule', f'threads={nt}', f'enters={min(n_enter, 3)}'),
+                   tags=('schedule', f'threads={nt}', f'enters={min(n_enter, 3)}', f'decorated_calls={min(n_deco, 3)}'),
                    detail={'impl': obs, 'model': ans})
 
 
